@@ -12,6 +12,7 @@ from . import core, h2h, models
 from .core import CTX, sym_int, HarnessError
 from .models import sym_bytes
 from .observer import Observer
+from .monitors import EventMonitor
 
 KIND_HEADERS = {
     'req': h2h.REQ, 'post': h2h.REQ_POST, 'head': h2h.REQ_HEAD, 'resp': h2h.RESP,
@@ -26,6 +27,7 @@ class Ctx:
         self.client = client
         self.me = h2h.conn(client, **(cfg or {}))
         self.obs = Observer(client)
+        self.mon = EventMonitor(client)
         self.peer_enc = hpack.Encoder()
         self.history = []
         if upgrade:
@@ -42,6 +44,8 @@ class Ctx:
                 self.obs.highest_out = 1
             else:
                 self.obs.highest_in = 1
+                self.mon.phase[1] = 'headers'     # the HTTP/1.1 request was the request
+                self.mon.ended.add(1)
         else:
             self.me.initiate_connection()
         # peer's preface + SETTINGS, and its ACK of ours
@@ -62,6 +66,8 @@ class Outcome:
         self.cls = None           # see classify()
         self.sent_frame = None    # the peer frame delivered (frame ops)
         self.kind = None
+        self.grammar = []         # event-grammar clauses violated by the returned events
+        self.cleared = False
 
     def classify(self):
         is_frame = self.op[0].isupper()
@@ -161,6 +167,7 @@ def build_frame(ctx, op, symbolic):
     if t == 'UNKNOWN':
         f = hf.ExtensionFrame(0xFA, op[1])
         f.body = b'xx'
+        f.body_len = 2
         return f
     raise HarnessError("unknown frame op %r" % (op,))
 
@@ -233,6 +240,8 @@ def run_op(ctx, op, symbolic=False, observe=True):
     except HarnessError:
         raise
     out.classify()
+    if is_frame and out.exc is None:
+        out.grammar = ctx.mon.feed(out.events)
     if observe:
         for f in out.frames:
             if isinstance(f, hf.HeadersFrame) and not is_frame and op[0] == 'send_headers':
